@@ -33,7 +33,7 @@ def run(tier, replay=None):
         if replay:
             data = json.load(open(replay))
             c = data['case']
-            payload = {'chains': [[0, c['chain'], c['owners']]]} if 'chain' in c else {'files': [[0, c['file']]]}
+            payload = {'chains': [[0, c['chain'], c['owners'], c.get('variant', 0)]]} if 'chain' in c else {'files': [[0, c['file']]]}
             cases = worker(payload)
             gen = None
         else:
@@ -51,6 +51,32 @@ def run(tier, replay=None):
                 chains = rng.sample(chains, 3000)
             elif len(chains) > 60000:
                 chains = rng.sample(chains, 60000)
+            # deeper chains than the enumeration reaches: sampled candidates, legality and owners decided by Scoping.tla
+            roles = ['none', 'read', 'bind', 'bindread', 'global', 'globalbind', 'globalread', 'globalbindread',
+                     'nonlocal', 'nonlocalbind', 'nonlocalread', 'nonlocalbindread']
+            cands = []
+            for _ in range(120000 if thorough else 9000):
+                d = rng.choice([4, 4, 5, 6] if thorough else [4, 4, 4, 5])
+                kinds = []
+                for i in range(d):
+                    prev = kinds[-1] if kinds else 'function'
+                    kinds.append(rng.choice(['lambda', 'comp']) if prev in ('lambda', 'comp') else
+                                 rng.choices(['function', 'class', 'lambda', 'comp'], weights=[5, 4, 2, 1])[0])
+                rl = [rng.choice(roles if k == 'function' else roles[:4]) if rng.random() < 0.75 else 'none' for k in kinds]
+                cands.append({'kind': kinds, 'role': rl, 'mrole': rng.choice(roles[:4])})
+            cf = os.path.join(wd, 'cands.json')
+            json.dump(cands, open(cf, 'w'))
+            ev = core.tlc('ScopingEval', 'ScopingEval.cfg', env={'VERIF_CASES': cf}, workdir=wd, timeout=3000, xmx='6g')
+            if ev.error:
+                raise core.MachineryFailure('ScopingEval.tla failed: %s' % ev.error)
+            ck.add_tlc(ev)
+            deep = [r for r in ev.records if isinstance(r, dict) and 'chain' in r]
+            deep.sort(key=lambda r: json.dumps(r, sort_keys=True))
+            if len(deep) < 500:
+                raise core.MachineryFailure('ScopingEval.tla kept %d deep chains' % len(deep))
+            ck.extra['deep_chains'] = len(deep)
+            nshallow = len(chains)
+            chains = chains + deep
             files = sorted(glob.glob(os.path.join(core.REPO, 'supp', '*.py')) + glob.glob(os.path.join(core.REPO, 'tests', '*.py')))
             stdlib = sysconfig.get_paths()['stdlib']
             std = sorted(glob.glob(os.path.join(stdlib, '*.py')) + glob.glob(os.path.join(stdlib, '*', '*.py')))
@@ -63,7 +89,7 @@ def run(tier, replay=None):
                 files.append(f)
             n = core.NCPU
             pinned = [[2000000 + i, f['input']] for i, f in enumerate(ck.findings)]
-            jobs = [{'chains': [[i, c['chain'], c['owners']] for i, c in enumerate(chains)][k::n], 'pinned': pinned if k == 0 else [],
+            jobs = [{'chains': [[i, c['chain'], c['owners'], 0 if i % 2 == 0 else 1 + i % 7] for i, c in enumerate(chains)][k::n], 'pinned': pinned if k == 0 else [],
                      'files': [[1000000 + i, f] for i, f in enumerate(files)][k::n]} for k in range(n)]
             cases = []
             with ThreadPoolExecutor(max_workers=n) as ex:
@@ -111,7 +137,7 @@ def run(tier, replay=None):
             ck.violation(sig, 'read(s) %s of %s resolve to bindings of another scope than the one CPython assigns: %s' % (
                 [[r['name'], r['pos']] for r in bad[:3]], c.get('file') or repr(c.get('source')),
                 [{'owner': r['sym'], 'supp_alternatives_owners': r['alts']} for r in bad[:3]]),
-                {k: c[k] for k in c if k in ('source', 'chain', 'file')} | ({'owners': [r['spec'] for r in c['reads']]} if 'chain' in c else {}))
+                {k: c[k] for k in c if k in ('source', 'chain', 'file', 'variant')} | ({'owners': [r['spec'] for r in c['reads']]} if 'chain' in c else {}))
         for c in cases:
             for r in c['reads']:
                 if r['sym'] != r['scope']:
